@@ -686,6 +686,7 @@ theorem addResponse_ids {d anc c c'} (hd : S d.id) (hc : IdsIn S c) (h : addResp
   unfold addResponse at h
   simp only [fail] at h
   split at h; · cases h
+  split at h; · cases h
   obtain ⟨nt, _, h⟩ := bind_ok h
   generalize (d.kind == Kind.Body && _) = clash at h
   split at h; · cases h
